@@ -77,8 +77,8 @@ CLAIMED = {
             "Eighteen theorems (Props/C17.v). partial: Python object identity has no Gallina counterpart (names stand for objects; identity is checked by the dumper on the implementation); duplicate parameter names and deleted definitions are covered by the parameter/type theorems plus the correspondence on 15 corruption kinds.",
             "Trusted: Coq kernel+VM; lxml parsing; the harness' typed-attribute conversion table.",
             "DESIGN.md section 4 C17"),
-    "C16": ("Coq proof (the element view the readers use is invariant under removal of comments and inter-element whitespace at any depth, by tree induction; the namespace state is overwritten before first use, so any history of loads is irrelevant; prefix name / default namespace irrelevant) + kernel-evaluated correspondence: 4 namespace spellings x decorations x load histories in one process vs the plain rendering",
-            "Five theorems (Props/C16.v). partial: the no-namespace spelling and XML text <-> tree are lxml's and reached only by the correspondence.",
+    "C16": ("Coq proof (the element view the readers use is invariant under removal of comments and inter-element whitespace at any depth, by tree induction; the namespace state is overwritten before first use, so any history of loads is irrelevant; prefix name / default namespace irrelevant; re-labelling all tags into any other namespace, or none, and reading with that namespace gives the same document, proved reader by reader) + kernel-evaluated correspondence: 5 namespace spellings (incl. prefixes that begin element names) x decorations x load histories in one process vs the plain rendering",
+            "Seven theorems (Props/C16.v). partial: XML text <-> tree (and the tag an XPath step is turned into) is lxml's and reached only by the correspondence.",
             "Trusted: Coq kernel+VM; lxml; the modelling decision that readers touch documents only through find/iterfind/attrib/text (checked by decorated-document correspondence). Genuine defect F9 found by this check and repaired by a fix: commit.",
             "DESIGN.md section 4 C16"),
     "C09": ("Coq proof of the write/read round trip at every level up to the whole document (read_doc (write_doc d) = d for every writer-normal-form document: containers, parameters, parameter types, numeric/string/binary encodings, dynamic sizes and lookups, criteria and boolean trees of any depth, calibrators and context calibrators) + full reader/writer/loader model + kernel-evaluated correspondence: implementation writer tree = model writer tree element by element, and the definition loaded back = the original (independent dumper incl. adjusters, identity), for definitions built both ways; identical decoding on packets",
